@@ -89,19 +89,39 @@ def near_nl_transition(lat, eps):
     return False
 
 
+def _zone_split(x, d, nb):
+    """x = d * (zi + q / 2**nb) rounded to the nearest bin, with zi and q
+    consistent at float zone edges (Python's % and // can disagree there:
+    61.01694915254237 // (360/59) is 10 while 61.01694915254237 % (360/59) is
+    just under one zone)."""
+    zi = math.floor(x / d)
+    rem = x - zi * d
+    if rem < 0:
+        zi -= 1
+        rem += d
+    elif rem >= d:
+        zi += 1
+        rem -= d
+    q = math.floor((1 << nb) * (rem / d) + 0.5)
+    if q >= (1 << nb):
+        q = 0
+        zi += 1
+    return zi, int(q)
+
+
 def cpr_encode(lat, lon, odd, surface):
     """Returns (YZ, XZ, rlat, rlon): 17-bit fields and the position they
     represent exactly."""
     i = 1 if odd else 0
     nb = 19 if surface else 17
     dlat = 360.0 / (60 - i)
-    yz = math.floor((1 << nb) * ((lat % dlat) / dlat) + 0.5)
-    rlat = dlat * (yz / float(1 << nb) + math.floor(lat / dlat))
+    zi, yz = _zone_split(lat, dlat, nb)
+    rlat = dlat * (zi + yz / float(1 << nb))
     nl = NL(rlat)
     dlon = 360.0 / max(nl - i, 1)
-    xz = math.floor((1 << nb) * ((lon % dlon) / dlon) + 0.5)
-    rlon = dlon * (xz / float(1 << nb) + math.floor(lon / dlon))
-    return int(yz) & 0x1FFFF, int(xz) & 0x1FFFF, rlat, rlon
+    mi, xz = _zone_split(lon, dlon, nb)
+    rlon = dlon * (mi + xz / float(1 << nb))
+    return yz & 0x1FFFF, xz & 0x1FFFF, rlat, rlon
 
 
 # ---------------------------------------------------------------------------
